@@ -16,7 +16,7 @@ PROFILES = {
     "C03": {"schemas": schemas.NAMES, "byz": (0.0, 0.3), "faults": 0.5, "mix": None, "tenant": True},
     # history clauses are asserted on the core schemas only (monbase.CORE_SCHEMAS); docmarks and comment
     # are here for the "under every schema" single-step clauses
-    "C04": {"schemas": sorted(["basic", "list", "title", "headbody", "iso", "table", "strict"] * 3) + ["docmarks", "comment"],
+    "C04": {"schemas": sorted(["basic", "list", "title", "headbody", "iso", "table", "strict"] * 2) + ["docmarks", "comment"],
             "byz": (0.0, 0.0), "faults": 1.0, "mix": None, "crash": True, "journal_p": 0.5},
     "C05": {"schemas": schemas.NAMES, "byz": (0.0, 0.2), "faults": 0.6, "tenant": True,
             "mix": {"set_node_attribute": 8, "set_doc_attribute": 8, "paste": 8, "paste_range": 5,
@@ -57,6 +57,10 @@ def make_cfg(seed, prop, tier):
     for k in list(mix):
         if rng.random() < 0.15 and len(mix) > 4:
             del mix[k]
+    if prop == "C04" and schema_name in ("docmarks", "comment"):
+        # these two configurations are in the C04 mix for the single-step clauses (node marks under
+        # schemas with interacting mark types)
+        mix.update({"node_mark_stack": 10, "add_node_mark": 6, "remove_node_mark": 5, "insert_node": 6})
     knobs = dict(simmod.DEFAULT_KNOBS)
     knobs["merge"] = bool(prof.get("merge")) and rng.random() < 0.8 or rng.random() < 0.25
     knobs["push_batch"] = rng.choice([0, 0, 1, 2, 4])
